@@ -328,6 +328,8 @@ def try_builtin(it, callee, args):
             if not len(sl):
                 return Opt(None, False)
             return Opt(Tuple([elem_ref(sl, 0), SliceRef(sl.cell, sl.path, sl.start + 1, sl.end)]), True)
+        if name in ("chunks_mut", "chunks_exact_mut", "rchunks_mut", "rchunks_exact_mut"):
+            name = name[:-4]  # the chunks are SliceRefs into the same cell; mutability is not tracked by the model
         if name in ("chunks", "chunks_exact", "rchunks", "rchunks_exact", "windows"):
             k = args[1]
             if not isinstance(k, int) or k <= 0:
@@ -401,7 +403,7 @@ def try_builtin(it, callee, args):
                 raise Panic("slice range out of bounds")
             return SliceRef(sl.cell, sl.path, sl.start + s, sl.start + e)
         raise Unsupported("slice index by %r" % (idx,))
-    m = re.match(r"^(?:(?:std|core)::slice::)?(?:R?ChunksExact)::<.*>::(?:remainder|into_remainder)$", c, re.S)
+    m = re.match(r"^(?:(?:std|core)::slice::)?(?:R?ChunksExact(?:Mut)?)::<.*>::(?:remainder|into_remainder)$", c, re.S)
     if m:
         li = deref(args[0])
         if isinstance(li, ListIter) and li.remainder is not None:
@@ -529,6 +531,17 @@ def try_builtin(it, callee, args):
             return SkipIter(itr, args[1])
         if name == "take":
             return TakeIter(itr, args[1])
+        if name == "scan":
+            from interp import ScanIter
+            return ScanIter(itr, args[1], args[2])
+        if name in ("filter", "filter_map", "take_while", "skip_while", "inspect", "map_while"):
+            from interp import FilterIter
+            return FilterIter(itr, args[1], name)
+        if name == "step_by":
+            from interp import StepByIter
+            if not isinstance(args[1], int) or args[1] <= 0:
+                raise Panic("step_by(0)")
+            return StepByIter(itr, args[1])
         if name == "len":
             r = remaining_len(itr)
             if r is None:
